@@ -53,6 +53,14 @@ ASSUMPTIONS = [
     "in-memory strings get no newline translation: equality of a CRLF string with the file channels needs the parser's LF<->CRLF invariance (property C09), a named premise of C10_channels_parse",
     "not expressible in the model: hidden shared mutable state in the Python heap (module globals, default arguments, default items shared between LASFile objects). C10_pure is congruence in a functional model and carries no weight; purity rests on the history correspondence only",
     "las.encoding is not part of 'the result': it records the channel by design",
+    "path channels: absolute and relative (to the working directory) path strings, pathlib.Path absolute / relative / an "
+    "instance of a user subclass of Path.  Other os.PathLike objects (pathlib.PurePath, a class with __fspath__, a bytes "
+    "path) are not among the statement's channels (path string, pathlib.Path, file object, StringIO, string): lasio "
+    "takes them for file objects (AttributeError: no attribute 'read'); observed, not judged",
+    "histories: the results of reads are also edited IN PLACE (las.curves[k].data[i] = v, las.index[0] = v, las.index += c, "
+    "edits of the arrays las.data / las.df() return); after every step every pool text must still read as in a fresh "
+    "interpreter, untouched objects must be unchanged, and the arrays of a result never share memory "
+    "(np.shares_memory) with those of the previous read of the same text or of a live LASFile",
 ]
 
 # ---------------------------------------------------------------------------------------------
@@ -71,8 +79,38 @@ ALPHABETS = {
 }
 ENC_MODES = ["utf-8-sig-auto", "utf-8", "utf-16", "latin-1", "cp1252"]
 NEWLINES = {"LF": "\n", "CRLF": "\r\n", "CR": "\r"}
-CHANNELS = ["str_path", "Path", "fileobj", "StringIO", "string"]
-FILE_CHANNELS = ("str_path", "Path", "fileobj")
+CHANNELS = ["str_path", "Path", "fileobj", "StringIO", "string", "rel_path", "rel_Path", "PathSub"]
+# a path string / pathlib.Path: absolute, relative to the working directory, an instance of a subclass of Path
+PATH_CHANNELS = ("str_path", "Path", "rel_path", "rel_Path", "PathSub")
+FILE_CHANNELS = PATH_CHANNELS + ("fileobj",)
+
+
+class PathSub(type(pathlib.Path())):
+    """a user subclass of pathlib.Path"""
+
+
+def path_object(ch, p):
+    """the object handed to lasio for the path channel ch and the absolute file name p"""
+    if ch == "str_path":
+        return p
+    if ch == "Path":
+        return pathlib.Path(p)
+    if ch == "rel_path":
+        return os.path.relpath(p)
+    if ch == "rel_Path":
+        return pathlib.Path(os.path.relpath(p))
+    if ch == "PathSub":
+        return PathSub(p)
+    raise ValueError(ch)
+
+
+def model_path_input(ch, p, data, kw, installed=True):
+    """the model's view of a path channel: the string lasio dispatches on and the name the file system is asked for"""
+    x = path_object(ch, p)
+    if isinstance(x, str):
+        return model_input("S", x, x, x, data, kw, installed)
+    ab = str(x.absolute())
+    return model_input("P", str(x), ab, ab, data, kw, installed)
 
 
 def alphabet_of(enc_mode):
@@ -274,7 +312,7 @@ def write_case_file(payload, tmpdir, name="f.las"):
 
 
 def expected_encoding(payload):
-    if payload["channel"] not in ("str_path", "Path"):
+    if payload["channel"] not in PATH_CHANNELS:
         return None
     if payload["enc_mode"] == "utf-8-sig-auto":
         return "utf-8-sig"
@@ -296,10 +334,8 @@ def read_through(payload, tmpdir):
         return o, las, None, None
     p, data = write_case_file(payload, tmpdir)
     try:
-        if ch == "str_path":
-            o, las = observe(lambda: lasio.read(p, **kw))
-        elif ch == "Path":
-            o, las = observe(lambda: lasio.read(pathlib.Path(p), **kw))
+        if ch in PATH_CHANNELS:
+            o, las = observe(lambda: lasio.read(path_object(ch, p), **kw))
         else:
             with open(p, encoding=file_codec(payload["enc_mode"])) as f:
                 o, las = observe(lambda: lasio.read(f))
@@ -514,7 +550,7 @@ def gen_tuple(rng, i):
     else:
         text, ftxt = gen_las_text(rng, alpha)
     kw = {}
-    if ch in ("str_path", "Path"):
+    if ch in PATH_CHANNELS:
         if enc_mode == "utf-8-sig-auto":
             r = rng.random()
             if r < 0.5:
@@ -578,7 +614,7 @@ def gen_decision(rng):
     if "autodetect_encoding" in kw and kw["autodetect_encoding"] is True and rng.random() < 0.5:
         del kw["autodetect_encoding"]
     return {"kind": "decision", "text": text, "fields_text": ftxt, "written": written,
-            "newline": rng.choice(list(NEWLINES)), "channel": rng.choice(["str_path", "Path"]), "kwargs": kw,
+            "newline": rng.choice(list(NEWLINES)), "channel": rng.choice(PATH_CHANNELS), "kwargs": kw,
             "no_chardet": rng.random() < 0.12}
 
 
@@ -614,9 +650,9 @@ def eval_decision(payload, tmpdir):
     with open(p, "wb") as f:
         f.write(data)
     kw = kwargs_of(payload)
-    x = p if payload["channel"] == "str_path" else pathlib.Path(p)
+    x = path_object(payload["channel"], p)
     hide = bool(payload.get("no_chardet"))
-    minp = model_input("S" if payload["channel"] == "str_path" else "P", p, p, p, data, kw, installed=not hide)
+    minp = model_path_input(payload["channel"], p, data, kw, installed=not hide)
     if hide:
         # `import chardet` raises ImportError while the entry is None (nothing in lasio is touched)
         import sys
@@ -746,13 +782,13 @@ def eval_channel(payload, tmpdir):
         obs, corr_in = "P", model_input("O", "", "", None, None, {})
     else:
         if las is None:
-            o2, l2, e2 = open_observation(p if ch == "str_path" else pathlib.Path(p), kw)
+            o2, l2, e2 = open_observation(path_object(ch, p), kw)
             if isinstance(e2, (UnicodeError, LookupError)) and not hasattr(l2, "encoding"):
                 return bad, None
             obs = o2
         else:
             obs = "F=" + las.encoding if las.encoding is not None else "C"
-        corr_in = model_input("S" if ch == "str_path" else "P", p, p, p, data, kw)
+        corr_in = model_path_input(ch, p, data, kw)
     return bad, (corr_in, obs)
 
 
@@ -773,7 +809,10 @@ FIRST = {}          # text/channel key -> first dump seen in this process
 DEFAULT0 = [None]   # dump of the first fresh LASFile() of this process
 
 MUT_OPS = ("rename_curve", "delete_curve", "set_strt", "set_null", "append_curve", "set_unit", "set_other",
-           "fresh_edit", "del_item", "add_param")
+           "fresh_edit", "del_item", "add_param", "data_inplace", "index_inplace", "lasdata_edit", "df_inplace")
+# in-place writes into the arrays a read returned: las.curves[k].data[i] = v, las.index[0] = v / las.index += c, edits of
+# the matrix las.data returns and of the DataFrame las.df() returns
+INPLACE_OPS = ("data_inplace", "index_inplace", "lasdata_edit", "df_inplace")
 
 POOL_FIXED = [
     "~A\n1 2\n3 4\n",
@@ -822,6 +861,15 @@ def gen_history(rng):
             op = ["reread", slot, rng.randrange(3)]
         elif r < 0.5:
             op = ["fresh_edit", slot, rng.randrange(9)]
+        elif rng.random() < 0.3:
+            k = rng.choice(["data_inplace", "data_inplace", "index_inplace", "index_inplace", "lasdata_edit", "df_inplace"])
+            v = rng.choice([99.0, -999.25, 12345.5, -9999.0, 0.0])
+            if k == "data_inplace":
+                op = [k, slot, rng.randrange(4), rng.choice([0, 0, 1, -1]), v]
+            elif k == "index_inplace":
+                op = [k, slot, rng.choice(["set", "set", "add", "mul"]), v]
+            else:
+                op = [k, slot, v]
         elif r < 0.58:
             op = ["rename_curve", slot, rng.randrange(3), rng.choice(["ZZ", "DEPT", "Ж", "GR"])]
         elif r < 0.65:
@@ -945,6 +993,32 @@ def apply_mutation(las, op):
                 del sec[op[3] % len(sec)]
         elif name == "add_param":
             las.params[op[2]] = HeaderItem(op[2], "", op[3], "added")
+        elif name == "data_inplace":
+            if len(las.curves):
+                d = las.curves[op[2] % len(las.curves)].data
+                if d.size:
+                    d[op[3] % len(d)] = op[4]
+        elif name == "index_inplace":
+            if len(las.curves) and las.index.size:
+                ix = las.index
+                if op[2] == "set":
+                    ix[0] = op[3]
+                elif op[2] == "add":
+                    ix += op[3]
+                else:
+                    ix *= 2.0
+        elif name == "lasdata_edit":
+            d = las.data
+            if d.size:
+                d[0, 0] = op[2]
+                d[-1, -1] = op[2]
+        elif name == "df_inplace":
+            df = las.df()
+            if df.shape[0] and df.shape[1]:
+                df.iloc[0, 0] = op[2]
+            v = df.values
+            if v.size and v.flags.writeable:
+                v[-1, -1] = op[2]
     except Exception:
         pass
 
@@ -1037,12 +1111,30 @@ def run_replace(p, tmpdir):
     return None
 
 
+def arrays_of(las):
+    out = []
+    for j, c in enumerate(las.curves):
+        if isinstance(c.data, np.ndarray):
+            out.append((j, c.data))
+    return out
+
+
+def shared_arrays(a, b):
+    """None, or (i, j): curve i of LASFile a and curve j of LASFile b overlap in memory"""
+    for i, x in arrays_of(a):
+        for j, y in arrays_of(b):
+            if x.size and y.size and np.shares_memory(x, y):
+                return i, j
+    return None
+
+
 def run_history(h, tmpdir):
     """Returns None or the text of the first purity violation."""
     import lasio
     pool = h["pool"]
     slots = [None, None, None]
     written = [None, None, None]
+    last_read = {}          # key -> the LASFile the previous read of that text returned (kept alive on purpose)
 
     def check_read(key, fn, what):
         o, las = observe(fn)
@@ -1050,6 +1142,16 @@ def run_history(h, tmpdir):
             FIRST[key] = o
         elif FIRST[key] != o:
             return None, "%s: differs from the first read of the same text: %s" % (what, first_diff(o, FIRST[key]))
+        if las is not None:
+            # two results never share array memory: with the previous read of the same text, with the live objects
+            for other, name in [(last_read.get(key), "the previous read of the same text")] + \
+                               [(slots[j], "the LASFile in slot %d" % j) for j in range(3)]:
+                if other is not None and other is not las:
+                    sh = shared_arrays(las, other)
+                    if sh:
+                        return None, ("%s: curve %d of the result shares array memory (np.shares_memory) with curve %d of %s: "
+                                      "an in-place edit of one result changes the other" % (what, sh[0], sh[1], name))
+            last_read[key] = las
         return las, None
 
     init_default()
@@ -1250,7 +1352,7 @@ def run(ctx):
                 "kwargs) tuples inside the property's quantifier whose header fields contain at least one non-ASCII character, "
                 "plus distinct histories that contain at least one mutation before a later (probe) read, plus distinct "
                 "same-path/same-size replacements of a file by one in another encoding; "
-                "%d of the %d possible (channel, encoding, newline) combinations were covered" % (len(combos), 3 * 5 * 3 + 2))
+                "%d of the %d possible (channel, encoding, newline) combinations were covered" % (len(combos), len(FILE_CHANNELS) * 5 * 3 + 2))
     res.samples = samples
     res.histogram = dict(hist)
     res.extra = {"channel_encoding_newline_combinations": len(combos), "model_tie_cases": len(cases),
